@@ -9,9 +9,12 @@ it: Go's `regexp.Expand` (`rxExpand`, used for regex rules) and the glob rules' 
 
 * regex side: equal to the specification for every template (`regex_expand_eq_spec`), up to the two
   things the specification leaves out on purpose: `$0` and named groups.
-* glob side: the full-strength statement is FALSE for the unchanged code (three counterexamples,
-  one per defect); it is proved under the decidable guard `SafeTemplate` (SE/Spec/TemplateRefs.lean)
-  and for all templates in which the formatter's regex finds no reference.
+* glob side: the reference regex has been repaired (`\$\{?([a-zA-Z0-9_]+)\}?`: the name class no
+  longer contains `$`), so adjacent references expand (`adjacent_refs_expand`). The full-strength
+  statement is still FALSE (two remaining defects, one counterexample each, plus the further
+  divergences); it is proved under the decidable guard `SafeTemplate` (SE/Spec/TemplateRefs.lean),
+  which now accepts adjacent references, and for all templates without `$$` in which the
+  formatter's regex finds no reference.
 The captures themselves (C11's `captures_correct`, and the literal-`*` defect) are not part of this
 file; here `caps` is whatever the matcher hands to the formatter.
 -/
@@ -21,16 +24,22 @@ open SE
 /-! ### glob side -/
 
 /-- The full-strength claim: for a glob rule with `caps.length` wildcards, the formatter's output
-    is the documented expansion. It does NOT hold for the unchanged formatter — see below. -/
+    is the documented expansion. It does NOT hold, also after the repair of the reference regex —
+    see below. -/
 def glob_format_statement : Prop :=
   ∀ (tmpl : Bytes) (caps : List Bytes),
     (compileTemplate tmpl caps.length).format caps = some (expandSpec caps tmpl.length tmpl)
 
-/-- Defect `template_adjacent_refs`: `$1$2` with captures `a`,`b` gives the empty string (the name
-    class of the formatter's regex contains `$`, so `1$2` is read as one non-numeric name);
-    documented: `ab`. -/
-theorem adjacent_refs_counterexample :
-    (compileTemplate [36, 49, 36, 50] 2).format [[97], [98]] = some [] ∧
+/-- Repaired defect `template_adjacent_refs`: `$1$2` with captures `a`,`b` gives `ab` (before the
+    repair the name class of the formatter's regex contained `$`, `1$2` was read as one non-numeric
+    name and the result was the empty string). The general statement is `glob_format_eq_spec_partial`
+    with the weakened guard; see the non-vacuity examples at the end. -/
+theorem adjacent_refs_expand :
+    (compileTemplate [36, 49, 36, 50] 2).format [[97], [98]] = some [97, 98] := by decide
+
+/-- … which is the documented expansion -/
+theorem adjacent_refs_agree :
+    (compileTemplate [36, 49, 36, 50] 2).format [[97], [98]] = some [97, 98] ∧
     expandSpec [[97], [98]] 4 [36, 49, 36, 50] = [97, 98] := by decide
 
 /-- Defect `template_ref_prefix_of_ref`: `$1-$11` with one capture `foo`: the textual
@@ -51,42 +60,67 @@ theorem percent_counterexample :
   decide
 
 /-- Further divergences from the documented (`regexp.Expand`) syntax, found while choosing the guard
-    (model-level; each is excluded by `SafeTemplate`):
-    `$$` is not an escape (the whole `$$` is read as a reference named `$` and dropped);
+    (model-level; each is excluded by `SafeTemplate`). All four survive the repair of the reference
+    regex, the first with a different value:
+    `$$` is not an escape (since the repair the first `$` starts no reference, nor does the second:
+    both are copied, `$$`; before the repair the whole `$$` was a reference named `$` and dropped);
     `$01` is read by `strconv.Atoi` as capture 1, while `regexp.Expand` rejects leading zeros;
     an unclosed `${1` is accepted; a stray `}` after a bare `$1` is swallowed. -/
 theorem further_divergences :
-    ((compileTemplate [36, 36] 0).format [] = some [] ∧ expandSpec [] 2 [36, 36] = [36]) ∧
+    ((compileTemplate [36, 36] 0).format [] = some [36, 36] ∧ expandSpec [] 2 [36, 36] = [36]) ∧
     ((compileTemplate [36, 48, 49] 1).format [[102]] = some [102] ∧ expandSpec [[102]] 3 [36, 48, 49] = []) ∧
     ((compileTemplate [36, 123, 49] 1).format [[102]] = some [102] ∧
         expandSpec [[102]] 3 [36, 123, 49] = [36, 123, 49]) ∧
     ((compileTemplate [36, 49, 125] 1).format [[102]] = some [102] ∧
         expandSpec [[102]] 3 [36, 49, 125] = [102, 125]) := by decide
 
-/-- Hence the unguarded statement is false. -/
+/-- A divergence the repair makes reachable inside a template with a reference: `$$1` with one
+    capture `f` gives `$f` (the first `$` is copied, `$1` is a reference), documented: `$1`
+    (`$$` is the escape). Before the repair `$$1` was one reference named `$1` and gave ``. -/
+theorem dollar_escape_counterexample :
+    (compileTemplate [36, 36, 49] 1).format [[102]] = some [36, 102] ∧
+    expandSpec [[102]] 3 [36, 36, 49] = [36, 49] := by decide
+
+/-- Hence the unguarded statement is false (also after the repair): refuted by the prefix defect
+    `$1-$11` — and equally by `100%-$1`, `$$`, `$01`, `${1`, `$1}`, see `glob_format_statement_false'`. -/
 theorem glob_format_statement_false : ¬ glob_format_statement := by
   intro h
-  have h1 := h [36, 49, 36, 50] [[97], [98]]
-  rw [show ([[97], [98]] : List Bytes).length = 2 from rfl, adjacent_refs_counterexample.1,
-    show ([36, 49, 36, 50] : Bytes).length = 4 from rfl, adjacent_refs_counterexample.2] at h1
+  have h1 := h [36, 49, 45, 36, 49, 49] [[102, 111, 111]]
+  rw [show ([[102, 111, 111]] : List Bytes).length = 1 from rfl, ref_prefix_counterexample.1,
+    show ([36, 49, 45, 36, 49, 49] : Bytes).length = 6 from rfl, ref_prefix_counterexample.2] at h1
+  revert h1
+  with_unfolding_all decide
+
+/-- the same refutation from the `%` defect alone (the two defects are independent) -/
+theorem glob_format_statement_false' : ¬ glob_format_statement := by
+  intro h
+  have h1 := h [49, 48, 48, 37, 45, 36, 49] [[102, 111, 111]]
+  rw [show ([[102, 111, 111]] : List Bytes).length = 1 from rfl, percent_counterexample.1] at h1
   cases h1
 
-/-- Templates in which the formatter's regex `\$\{?([a-zA-Z0-9_\$]+)\}?` finds nothing are returned
-    verbatim — whatever else they contain (`%`, a trailing `$`, `$-`, `${}` …) and whatever the
-    captures are — and that is also what the documented syntax gives. -/
-theorem no_ref_identity (tmpl : Bytes) (n : Nat) (caps : List Bytes) (h : findRefs tmpl.length tmpl = []) :
+/-- Templates in which the formatter's regex `\$\{?([a-zA-Z0-9_]+)\}?` finds nothing are returned
+    verbatim — whatever else they contain (`%`, a trailing `$`, `$-`, `${}`, `$$` …) and whatever the
+    captures are — and, if the template contains no `$$`, that is also what the documented syntax
+    gives. (The hypothesis `hasDollarDollar tmpl = false` is new and needed since the repair: `$$`
+    is no longer a "reference", see `further_divergences`.) -/
+theorem no_ref_identity (tmpl : Bytes) (n : Nat) (caps : List Bytes) (h : findRefs tmpl.length tmpl = [])
+    (hdd : hasDollarDollar tmpl = false) :
     (compileTemplate tmpl n).format caps = some tmpl ∧ expandSpec caps tmpl.length tmpl = tmpl :=
-  ⟨compile_no_refs tmpl n caps h, findRefs_nil_expandSpec caps _ _ h⟩
+  ⟨compile_no_refs tmpl n caps h, findRefs_nil_expandSpec caps _ _ h hdd⟩
+
+/-- the first half needs no hypothesis about `$$` -/
+theorem no_ref_verbatim (tmpl : Bytes) (n : Nat) (caps : List Bytes) (h : findRefs tmpl.length tmpl = []) :
+    (compileTemplate tmpl n).format caps = some tmpl := compile_no_refs tmpl n caps h
 
 /-- in particular every template without a `$` -/
 theorem no_dollar_identity (tmpl : Bytes) (n : Nat) (caps : List Bytes) (h : cDollar ∉ tmpl) :
     (compileTemplate tmpl n).format caps = some (expandSpec caps tmpl.length tmpl) := by
-  obtain ⟨h1, h2⟩ := no_ref_identity tmpl n caps (findRefs_no_dollar _ _ h)
+  obtain ⟨h1, h2⟩ := no_ref_identity tmpl n caps (findRefs_no_dollar _ _ h) (hasDollarDollar_no_dollar _ h)
   rw [h1, h2]
 
 /-- **Partial C11, segment form.** For every list of literal pieces and numeric references that
     satisfies `SafeSegs` — any number of references, repeated and non-numeric ones allowed — and for a rule
-    with `n` wildcards handing over at most `n` captures, the unchanged formatter outputs exactly
+    with `n` wildcards handing over at most `n` captures, the (repaired) formatter outputs exactly
     the documented expansion (never `none`). References larger than `n`, and `$0`, expand to
     nothing on both sides. -/
 theorem glob_format_eq_spec_segs (segs : List Seg) (caps : List Bytes) (n : Nat)
@@ -98,7 +132,8 @@ theorem glob_format_eq_spec_segs (segs : List Seg) (caps : List Bytes) (n : Nat)
 /-- **Partial C11** under the decidable guard `SafeTemplate tmpl`: the template reads as literals
     without `$` and `%` and references `$name`/`${name}` (`name` ∈ `[A-Za-z0-9_]+`, either a decimal
     number of ≤ 8 digits without leading zero or not purely numeric); a bare `$name` is followed by
-    the end or a byte outside `[a-zA-Z0-9_$}]`; no reference text is a proper prefix of another. -/
+    the end or a byte outside `[a-zA-Z0-9_}]` (so `$`, i.e. the next reference, may follow
+    directly); no reference text is a proper prefix of another. -/
 theorem glob_format_eq_spec_partial (tmpl : Bytes) (caps : List Bytes) (n : Nat)
     (hs : SafeTemplate tmpl = true) (hc : caps.length ≤ n) :
     (compileTemplate tmpl n).format caps = some (expandSpec caps tmpl.length tmpl) := by
@@ -150,15 +185,31 @@ theorem glob_regex_agree_partial (tmpl : Bytes) (m : RxMatch) (n : Nat)
   rw [glob_format_eq_spec_partial tmpl (capsOf m) n hs hc, regex_expand_eq_spec_unnamed m tmpl hun h0]
   rfl
 
-/- Non-vacuity: the guard accepts real templates with several, adjacent-to-literal and repeated
-   references, rejects the three defective ones, and the theorem's two sides are what one expects. -/
+/- Non-vacuity: the guard accepts real templates with several, adjacent-to-literal, adjacent-to-each-other
+   and repeated references, rejects the two remaining defective ones (and `$$`, `$1}`), and the theorem's
+   two sides are what one expects. -/
 example : SafeTemplate (strBytes "a_$1.b${2}$3-c") = true := by with_unfolding_all decide
 example : SafeTemplate (strBytes "${1}${2}") = true ∧ SafeTemplate (strBytes "$1.$1-${10}") = true := by
   with_unfolding_all decide
 example : SafeTemplate (strBytes "foo_$1_bar.${2}") = true ∧ SafeTemplate (strBytes "$foo") = true := by
   with_unfolding_all decide
-example : SafeTemplate (strBytes "$1$2") = false ∧ SafeTemplate (strBytes "100%-$1") = false ∧
-          SafeTemplate (strBytes "$1-$11") = false := by with_unfolding_all decide
+example : SafeTemplate (strBytes "100%-$1") = false ∧ SafeTemplate (strBytes "$1-$11") = false ∧
+          SafeTemplate (strBytes "$$") = false ∧ SafeTemplate (strBytes "$$1") = false ∧
+          SafeTemplate (strBytes "$1}") = false ∧ SafeTemplate (strBytes "$01") = false ∧
+          SafeTemplate (strBytes "${1") = false := by with_unfolding_all decide
+-- adjacent references are accepted since the repair (bare–bare, bare–braced, braced–bare):
+example : SafeTemplate (strBytes "$1$2") = true ∧ SafeTemplate (strBytes "x_$1$2_${3}$1") = true := by
+  with_unfolding_all decide
+example : SafeTemplate (strBytes "x_$1$2.${3}$1") = true ∧ SafeTemplate (strBytes "$1${2}$3$foo$1") = true := by
+  with_unfolding_all decide
+-- "x_$1$2.${3}$1" with a, b, c ↦ "x_ab.ca"
+example : (compileTemplate [120, 95, 36, 49, 36, 50, 46, 36, 123, 51, 125, 36, 49] 3).format [[97], [98], [99]]
+    = some [120, 95, 97, 98, 46, 99, 97] := by decide
+-- "x_$1$2_${3}$1" ↦ "x_aca" on both sides: the second reference is `$2_` (longest name), which names no capture
+example : (compileTemplate [120, 95, 36, 49, 36, 50, 95, 36, 123, 51, 125, 36, 49] 3).format [[97], [98], [99]]
+    = some [120, 95, 97, 99, 97] ∧
+    expandSpec [[97], [98], [99]] 13 [120, 95, 36, 49, 36, 50, 95, 36, 123, 51, 125, 36, 49] = [120, 95, 97, 99, 97] := by
+  decide
 example : (compileTemplate [97, 36, 49, 46, 36, 123, 50, 125, 36, 49] 2).format [[120], [121, 122]]
     = some [97, 120, 46, 121, 122, 120] := by decide                    -- "a$1.${2}$1" ↦ "ax.yzx"
 example : rxExpand [([], some [119]), ([], some [120]), ([], none)] 8 [36, 49, 45, 36, 123, 50, 125, 33]
